@@ -361,7 +361,7 @@ def nested_slices(F, R, rule='B.C02.ibs'):
             if (callee_path(t) or '') != 'effect::Effect::process':
                 continue
             n += 1
-            d = describe(b, t['args'][1], depth=8, at=bb)
+            d = describe(b, t['args'][1], depth=14, at=bb)
             ok = d in ('input', '&(*input)', '(*input)') or prefix_of_len(d, '', ('input', 'ChunksMut'))
             R.check(ok, rule, 'nested:%s#%d' % (im['self_ty'], n),
                     '%s::process hands %s to its nested effects: not the current chunk nor scratch[..input.len()] (nested stateful effects would '
